@@ -356,9 +356,48 @@ def r4_selectors(ctx):
     return r
 
 
+def r5_rule_type_kept(ctx, prog):
+    r = Rule("C05.R5", "a plural keeps its rule type wherever it is rebuilt",
+             "plurals are rebuilt when inlined through a foreign key (populate); building one with a constant or another "
+             "plural's rule type turns an ordinal key into a cardinal one only on that path", floor=2)
+    from mirlib import backward_slice
+    n = 0
+    for name, b in sorted(prog.bodies.items()):
+        if b.crate not in ("leptos_i18n_parser", "leptos_i18n_macro"):
+            continue
+        if "as std::clone::Clone>::clone" in name or "as std::cmp::PartialEq>" in name:
+            continue
+        for i, j, s in b.aggregates("plurals::Plurals", "Plurals"):
+            n += 1
+            fields = s["rv"]["fields"]
+            ops = s["rv"]["ops"]
+            op = ops[fields.index("rule_type")]
+            site = "%s#Plurals{..}" % name
+            if op_const(op) is not None:
+                r.viol("R5:%s#const-rule-type" % name, "Plurals is constructed with a constant rule type (line %d): an ordinal plural rebuilt here becomes cardinal" % s["line"], file=b.file, line=s["line"])
+                continue
+            pl = op_place(op)
+            ls, defs = backward_slice(b, pl["l"])
+            if name.endswith("Plurals::populate_with_new_key"):
+                from_self = any(d[1] != "term" and d[2]["rv"]["k"] == "Use" and (op_place(d[2]["rv"]["ops"][0]) or {}).get("l") == 1 for d in defs) or pl["l"] == 1
+                # field 0 of *self
+                srcs = [place for d in defs if d[1] != "term" and d[2]["rv"]["k"] == "Use" for place in [op_place(d[2]["rv"]["ops"][0])] if place]
+                ok = any(p2["l"] == 1 and ".0" in p2["p"] for p2 in srcs)
+                fn0 = M.field_name(prog, "leptos_i18n_parser::parse_locales::plurals::Plurals", 0)
+                if ok and fn0 == "rule_type":
+                    r.inst(site, "rule_type: self.rule_type")
+                else:
+                    r.viol("R5:%s#rule-type-source" % name, "populate_with_new_key does not copy self.rule_type into the rebuilt plural", file=b.file, line=s["line"])
+            else:
+                r.inst(site, "rule_type from a value (not a constant): " + ", ".join(sorted({b.local_name(l) for l in ls if b.local_name(l)})[:4]))
+    if n == 0:
+        r.missing("construction sites of Plurals")
+    return r
+
+
 def run(ctx):
     prog = ctx.mir("main")
-    return [r1_tables(ctx), r2_candidates(ctx), r3_diagnostics(ctx, prog), r4_selectors(ctx)]
+    return [r1_tables(ctx), r2_candidates(ctx), r3_diagnostics(ctx, prog), r4_selectors(ctx), r5_rule_type_kept(ctx, prog)]
 
 
 MANIFEST_ENTRY = {
